@@ -6,257 +6,196 @@ from ..model import norm, parents, enclosing
 from ..util import require_func, calls_in, call_attr, is_name, const_str, kwarg, guards_of, single_assignment
 
 
-def linform(e, resolve=None, depth=0):
-    """Linear normal form  ({atom: coeff}, const).  Atoms are source texts
-    with `.stop` normalised to `.end`; `resolve(name)` may substitute a local
-    by its defining expression."""
-    if isinstance(e, ast.Constant) and isinstance(e.value, int) and not isinstance(e.value, bool):
-        return {}, e.value
-    if isinstance(e, ast.BinOp) and isinstance(e.op, (ast.Add, ast.Sub)):
-        a, ca = linform(e.left, resolve, depth)
-        b, cb = linform(e.right, resolve, depth)
-        s = 1 if isinstance(e.op, ast.Add) else -1
-        out = dict(a)
-        for k, v in b.items():
-            out[k] = out.get(k, 0) + s * v
-        return {k: v for k, v in out.items() if v}, ca + s * cb
-    if isinstance(e, ast.UnaryOp) and isinstance(e.op, ast.USub):
-        a, c = linform(e.operand, resolve, depth)
-        return {k: -v for k, v in a.items()}, -c
-    if isinstance(e, ast.Name) and resolve is not None and depth < 5:
-        v = resolve(e.id)
-        if v is not None:
-            return linform(v, resolve, depth + 1)
-    s = norm(e)
-    if s.endswith(".stop"):
-        s = s[:-5] + ".end"
-    return {s: 1}, 0
+def _traces(ctx, func, args, self_obj=None, summaries=None, overrides=None):
+    from ..absint import Interp, Unsupported
+    it = Interp(ctx, overrides=overrides or {})
+    for k, v in (summaries or {}).items():
+        it.summaries[k] = v
+    try:
+        return it.run(func, args, self_obj=self_obj)
+    except Unsupported as e:
+        ctx.require(False, "%s outside the analysable subset: %s" % (func.qual, e))
 
 
-def affine_len(e):
-    """linear form with atoms reduced to their last attribute (self.stop -> end)."""
-    a, c = linform(e)
-    return {k.split(".")[-1]: v for k, v in a.items()}, c
+def _attrs(d):
+    from ..absint import Opaque
+    o = Opaque("attributes", "Attributes")
+    o.attrs["_d"] = d
+    return o
+
+
+def _gene(**over):
+    from .c16 import _feat
+    G = _feat("G", start=10, end=100, ft="mRNA")
+    G.attrs["score"] = "."
+    G.attrs["attributes"] = _attrs({"ID": ["gene1"], "Name": ["n1", "n2"]})
+    G.attrs.update(over)
+    return G
+
+
+def _db(children_by_type, lookups=None, G=None):
+    """Summaries standing for the database: db[id] and db.children(...)."""
+    from .c16 import _feat
+    G = G if G is not None else _gene()
+
+    def getitem(i, pos, kw, node):
+        if lookups is not None:
+            lookups.append(getattr(pos[0], "name", pos[0]))
+        return G
+
+    def children(i, pos, kw, node):
+        ft = kw.get("featuretype")
+        key = tuple(ft) if isinstance(ft, (list, tuple)) else ft
+        if lookups is not None:
+            lookups.append(("children", getattr(pos[0], "name", pos[0]) if pos else None, key, kw.get("order_by"), kw.get("reverse")))
+        return [_feat(n, start=s_, end=e_) for n, s_, e_ in children_by_type.get(key, [])]
+    return {"interface.FeatureDB.__getitem__": getitem, "interface.FeatureDB.children": children}, G
 
 
 def r1_r2_r3(ctx):
+    """Lengths, sequence slices and BED12 lines, by abstract evaluation on features with concrete coordinates."""
+    from ..absint import Opaque
+    from .c16 import _feat
     ln = require_func(ctx, "feature.Feature.__len__")
-    r = [n for n in ast.walk(ln.node) if isinstance(n, ast.Return)]
-    ok = len(r) == 1 and affine_len(r[0].value) == ({"end": 1, "start": -1}, 1)
-    ctx.ob("R1", ok, "len(feature) = end - start + 1", func=ln, sig="__len__ = %s" % (norm(r[0].value) if r else None))
-    # stop is an alias of end, chrom of seqid
+    for s_, e_ in ((10, 20), (5, 5), (1, 100)):
+        tr = _traces(ctx, ln, {}, self_obj=_feat("F", start=s_, end=e_))
+        ctx.ob("R1", tr[0].result == ("return", e_ - s_ + 1), "len(feature) = end - start + 1", func=ln, sig="len(%d..%d) = %s" % (s_, e_, tr[0].result[1:2]))
     feat = ctx.proj.cls("feature.Feature")
     for alias, real in (("stop", "end"), ("chrom", "seqid")):
-        getters = [m for m in feat.node.body if isinstance(m, ast.FunctionDef) and m.name == alias and any(is_name(d, "property") for d in m.decorator_list)]
-        ok = bool(getters) and any(isinstance(n, ast.Return) and norm(n.value) == "self." + real for n in ast.walk(getters[0]))
-        ctx.ob("R1", ok, "feature.%s is an alias of feature.%s" % (alias, real), func=ln, sig="%s -> %s" % (alias, "self." + real if ok else "?"), nontrivial=False)
+        m = feat.methods.get(alias)
+        ok = False
+        if m is not None:
+            tr = _traces(ctx, m, {}, self_obj=_feat("F", chrom="chrX", start=3, end=77))
+            ok = tr[0].result == ("return", {"end": 77, "seqid": "chrX"}[real])
+        ctx.ob("R1", ok, "feature.%s is an alias of feature.%s" % (alias, real), func=ln, sig="%s -> %s" % (alias, real if ok else "?"), nontrivial=False)
     sq = require_func(ctx, "feature.Feature.sequence")
-    sl = [n for n in ast.walk(sq.node) if isinstance(n, ast.Subscript) and isinstance(n.slice, ast.Slice)]
-    ctx.floor("R1", len(sl), 1, "slices in Feature.sequence")
-    s = sl[0]
-    lo = affine_len(s.slice.lower) if s.slice.lower is not None else None
-    hi = affine_len(s.slice.upper) if s.slice.upper is not None else None
-    ok = lo == ({"start": 1}, -1) and hi == ({"end": 1}, 0) and s.slice.step is None
-    ctx.ob("R1", ok, "the sequence is the 0-based half-open slice [start-1 : end] of the named sequence", node=s, func=sq, sig="sequence slice %s" % norm(s.slice))
-    ok = isinstance(s.value, ast.Subscript) and norm(s.value.slice) in ("self.chrom", "self.seqid")
-    ctx.ob("R1", ok, "the slice is taken from the feature's own sequence", node=s, func=sq, sig="sequence of %s" % norm(s.value), nontrivial=False)
-    rc = [n for n in ast.walk(sq.node) if isinstance(n, ast.If) and any("reverse" in norm(b) and "complement" in norm(b) for b in n.body)]
-    ctx.ob("R5", len(rc) == 1, "there is one reverse-complement decision", func=sq, sig="%d reverse-complement decision(s)" % len(rc), nontrivial=False)
-    if rc:
-        t = rc[0].test
-        atoms = ["use_strand", "minus"]
-
-        def ev(n, env):
-            if isinstance(n, ast.BoolOp):
-                vs = [ev(v, env) for v in n.values]
-                return all(vs) if isinstance(n.op, ast.And) else any(vs)
-            if isinstance(n, ast.UnaryOp) and isinstance(n.op, ast.Not):
-                return not ev(n.operand, env)
-            if is_name(n, "use_strand"):
-                return env["use_strand"]
-            if isinstance(n, ast.Compare) and norm(n.left) == "self.strand" and isinstance(n.comparators[0], ast.Constant):
-                r_ = env["strand"] == n.comparators[0].value
-                return r_ if isinstance(n.ops[0], ast.Eq) else not r_
-            raise ValueError(norm(n))
-        try:
-            bad = None
-            for us in (False, True):
-                for st in ("+", "-", "."):
-                    if bool(ev(t, {"use_strand": us, "strand": st})) != (us and st == "-"):
-                        bad = (us, st)
-            ctx.ob("R5", bad is None, "the sequence is reverse-complemented exactly for minus-strand features with use_strand", node=rc[0], func=sq,
-                   sig="reverse complement iff %s" % norm(t) if bad is None else "reverse complement test `%s` wrong for (use_strand, strand) = %s" % (norm(t), bad))
-        except ValueError as e:
-            ctx.ob("R5", False, "the reverse-complement test is over use_strand and the strand", node=rc[0], func=sq, sig="reverse complement test %s" % norm(t))
+    for strand in ("+", "-", "."):
+        for use in (True, False):
+            tr = _traces(ctx, sq, {"fasta": Opaque("FA", "Fasta"), "use_strand": use}, self_obj=_feat("F", chrom="chr7", start=10, end=20, strand=strand))
+            got = sorted({getattr(t.result[1], "name", repr(t.result[1])) if t.result[0] == "return" else "raise %s" % t.result[1] for t in tr})
+            rc = use and strand == "-"
+            want = "FA['chr7'][9:20]%s.seq" % (".reverse.complement" if rc else "")
+            ctx.ob("R5" if strand == "-" else "R1", got == [want],
+                   "the sequence is the 0-based half-open slice [start-1 : end] of the feature's own sequence; it is reverse-complemented exactly for minus-strand features with use_strand",
+                   func=sq, sig="sequence(strand %s, use_strand=%s) = %s" % (strand, use, got))
     # ------------------------------------------------------------- bed12
     b = require_func(ctx, "interface.FeatureDB.bed12")
     fp = [p for p in b.params if p != "self"][0]
+    blocks = {("exon",): [("e1", 10, 20), ("e2", 50, 100)], ("CDS",): [("c1", 15, 20), ("c2", 50, 80)], ("UTR",): [("u1", 10, 14), ("u2", 81, 100)],
+              "exon": [("e1", 10, 20), ("e2", 50, 100)]}
 
-    def resolve(name):
-        if name in (fp,):
-            return None
-        return single_assignment(b.node, name)
-    want = {
-        "chromStart": ({"%s.start" % fp: 1}, -1),
-        "chromEnd": ({"%s.end" % fp: 1}, 0),
-    }
-    for name, w in want.items():
-        v = single_assignment(b.node, name)
-        got = linform(v) if v is not None else None
-        ctx.ob("R1", got == w, "BED12 %s = %s" % (name, "start - 1" if name == "chromStart" else "end"), func=b, sig="%s := %s" % (name, norm(v) if v is not None else None))
-    bs = single_assignment(b.node, "blockSizes")
-    ok = isinstance(bs, ast.ListComp) and isinstance(bs.elt, ast.Call) and is_name(bs.elt.func, "len") and is_name(bs.elt.args[0], bs.generators[0].target.id) \
-        and is_name(bs.generators[0].iter, "exons") and not bs.generators[0].ifs
-    ctx.ob("R1", ok, "block sizes are the lengths of the block features", func=b, sig="blockSizes := %s" % (norm(bs) if bs is not None else None))
-    bst = single_assignment(b.node, "blockStarts")
-    ok = False
-    if isinstance(bst, ast.ListComp) and is_name(bst.generators[0].iter, "exons") and not bst.generators[0].ifs:
-        iv = bst.generators[0].target.id
-        got = linform(bst.elt, resolve)
-        ok = got == ({"%s.start" % iv: 1, "%s.start" % fp: -1}, 0)
-    ctx.ob("R1", ok, "block starts are relative to chromStart: block.start - feature.start (first block 0)", func=b, sig="blockStarts := %s" % (norm(bst) if bst is not None else None))
-    bc = single_assignment(b.node, "blockCount")
-    ctx.ob("R1", bc is not None and norm(bc) == "len(exons)", "blockCount is the number of blocks", func=b, sig="blockCount := %s" % (norm(bc) if bc is not None else None), nontrivial=False)
-    ex = [n for n in ast.walk(b.node) if isinstance(n, ast.Assign) and is_name(n.targets[0], "exons") and isinstance(n.value, ast.Call) and is_name(n.value.func, "list")]
-    okx = bool(ex) and isinstance(ex[0].value.args[0], ast.Call) and call_attr(ex[0].value.args[0]) == "children" and \
-        const_str(kwarg(ex[0].value.args[0], "order_by")) == "start" and norm(kwarg(ex[0].value.args[0], "featuretype") or ast.Constant(value=None)) == "block_featuretype" \
-        and kwarg(ex[0].value.args[0], "reverse") is None
-    ctx.ob("R1", okx, "blocks are the children of the block featuretype in ascending start order", func=b, sig="exons := %s" % (norm(ex[0].value) if ex else None))
-    # thick bounds
-    th = {}
-    for n in ast.walk(b.node):
-        if isinstance(n, ast.Assign) and isinstance(n.targets[0], ast.Name) and n.targets[0].id in ("thickStart", "thickEnd"):
-            g = [(norm(t), pol) for t, pol in guards_of(n, b.node)]
-            kind = "thick" if ("thick_featuretype", True) in g else "thin" if ("thin_featuretype", True) in g else "?"
-            empty = any(t.startswith("len(") and t.endswith("== 0") and pol for t, pol in g)
-            th[(kind, n.targets[0].id, empty)] = linform(n.value)
-    want = {
-        ("thick", "thickStart", False): ({"thick[0].start": 1}, -1),
-        ("thick", "thickEnd", False): ({"thick[-1].end": 1}, 0),
-        ("thin", "thickStart", False): ({"thin[0].end": 1}, 0),
-        ("thin", "thickEnd", False): ({"thin[-1].start": 1}, -1),
-    }
-    for k, w in want.items():
-        ctx.ob("R1", th.get(k) == w, "%s from %s features: %s" % (k[1], k[0], _lin(w)), func=b, sig="%s (%s) := %s" % (k[1], k[0], _lin(th[k]) if k in th else None))
-    for kind in ("thick", "thin"):
-        src = [n for n in ast.walk(b.node) if isinstance(n, ast.Assign) and is_name(n.targets[0], kind) and isinstance(n.value, ast.Call)]
-        ok = bool(src) and "order_by='start'" in norm(src[0].value) and "featuretype=%s_featuretype" % kind in norm(src[0].value)
-        ctx.ob("R1", ok, "%s features are that type's children in start order" % kind, func=b, sig="%s := %s" % (kind, norm(src[0].value)[:80] if src else None), nontrivial=False)
-    # ---- R2 field order
-    flds = single_assignment(b.node, "fields")
-    names = [norm(e) for e in flds.elts] if isinstance(flds, ast.List) else None
-    want_f = ["chrom", "chromStart", "chromEnd", "name", "score", "strand", "thickStart", "thickEnd", "itemRgb", "blockCount",
-              "','.join(map(str, blockSizes))", "','.join(map(str, blockStarts))"]
-    ctx.ob("R2", names == want_f, "the twelve BED fields come in BED order", func=b, sig="BED12 fields %s" % names)
-    rets = [n for n in ast.walk(b.node) if isinstance(n, ast.Return)]
-    ok = bool(rets) and norm(rets[-1].value) == "'\\t'.join(map(str, fields))"
-    ctx.ob("R2", ok, "fields are TAB-joined", func=b, sig="bed12 returns %s" % (norm(rets[-1].value) if rets else None))
-    for nm, w in (("chrom", "%s.chrom" % fp), ("strand", "%s.strand" % fp), ("score", "%s.score" % fp)):
-        asg = [n for n in ast.walk(b.node) if isinstance(n, ast.Assign) and is_name(n.targets[0], nm)]
-        ok = bool(asg) and norm(asg[0].value) in (w, w.replace(".chrom", ".seqid"))
-        ctx.ob("R2", ok, "BED %s is the feature's %s" % (nm, nm), func=b, sig="%s := %s" % (nm, norm(asg[0].value) if asg else None), nontrivial=False)
+    def line(args, kids=blocks, G=None, lookups=None, switch=False):
+        summ, G_ = _db(kids, lookups, G)
+        tr = _traces(ctx, b, args, self_obj=Opaque("self", "obj"), summaries=summ, overrides={("constants", "always_return_list"): switch})
+        ctx.require(len(tr) == 1, "bed12 forks on concrete input (%d paths)" % len(tr))
+        t = tr[0]
+        return (t.result[1].split("\t") if t.result[0] == "return" and isinstance(t.result[1], str) else ("raise", t.result[1])), t
+    got, t = line({fp: _gene()})
+    want = ["chr1", "9", "100", "gene1", "0", "+", "14", "80", "0,0,0", "2", "11,51", "0,40"]
+    names = ["chrom", "chromStart", "chromEnd", "name", "score", "strand", "thickStart", "thickEnd", "itemRgb", "blockCount", "blockSizes", "blockStarts"]
+    ctx.ob("R2", isinstance(got, list) and len(got) == 12, "the twelve BED fields come TAB-joined in BED order", func=b, sig="bed12 line has %s fields" % (len(got) if isinstance(got, list) else got))
+    if not (isinstance(got, list) and len(got) == 12):
+        return
+    if isinstance(got, list) and len(got) == 12:
+        for n_, g_, w_ in zip(names, got, want):
+            rule = "R2" if n_ in ("chrom", "name", "score", "strand", "itemRgb") else "R1"
+            ctx.ob(rule, g_ == w_, {"chromStart": "BED12 chromStart = start - 1", "chromEnd": "BED12 chromEnd = end", "thickStart": "thickStart = first thick feature's start - 1",
+                                    "thickEnd": "thickEnd = last thick feature's end", "blockSizes": "block sizes are the lengths of the block features",
+                                    "blockStarts": "block starts are relative to chromStart: block.start - feature.start (first block 0)",
+                                    "blockCount": "blockCount is the number of blocks"}.get(n_, "BED %s is the feature's %s" % (n_, n_)), func=b,
+                   sig="%s = %s (feature 10..100, exons 10..20 50..100, CDS 15..20 50..80)" % (n_, g_))
+    got, t = line({fp: _gene(), "thick_featuretype": None, "thin_featuretype": ["UTR"]})
+    ok = isinstance(got, list) and got[6:8] == ["14", "80"]
+    ctx.ob("R1", ok, "from thin features: thickStart = first thin feature's end, thickEnd = last thin feature's start - 1", func=b, sig="thin UTRs 10..14, 81..100 -> thick %s" % (got[6:8] if isinstance(got, list) else got,))
+    got, t = line({fp: _gene()}, kids={("exon",): blocks[("exon",)]})
+    ok = isinstance(got, list) and got[6:8] == ["10", "100"]
+    ctx.ob("R1", ok, "without thick features the thick region is the feature itself (as the code documents)", func=b, sig="no CDS -> thick %s" % (got[6:8] if isinstance(got, list) else got,), nontrivial=False)
+    got, t = line({fp: _gene()}, kids={})
+    ok = isinstance(got, list) and got[9:12] == ["1", "91", "0"]
+    ctx.ob("R1", ok, "a feature without block children is its own single block", func=b, sig="no exons -> blocks %s" % (got[9:12] if isinstance(got, list) else got,), nontrivial=False)
+    lk = []
+    got, t = line({fp: _gene()}, lookups=lk)
+    ch = [x for x in lk if isinstance(x, tuple) and x[0] == "children"]
+    ok = any(x[2] == ("exon",) and x[3] == "start" and not x[4] for x in ch) and any(x[2] == ("CDS",) and x[3] == "start" and not x[4] for x in ch)
+    ctx.ob("R1", ok, "blocks and thick features are the children of their featuretype in ascending start order", func=b, sig="children queries %s" % [x[2:] for x in ch])
+    g7 = _gene(score="7")
+    got, t = line({fp: g7}, G=g7)
+    ctx.ob("R2", isinstance(got, list) and got[4] == "7", "BED score is the feature's score ('.' becomes 0)", func=b, sig="score 7 -> %s" % (got[4] if isinstance(got, list) else got,), nontrivial=False)
+    got, t = line({fp: _gene(), "name_field": "Name"})
+    ctx.ob("R2", isinstance(got, list) and got[3] == "n1", "BED name is the first value of name_field", func=b, sig="name_field=Name -> %s" % (got[3] if isinstance(got, list) else got,), nontrivial=False)
+    got, t = line({fp: _gene(), "name_field": "absent"})
+    ctx.ob("R2", isinstance(got, list) and got[3] == ".", "a missing name_field gives '.'", func=b, sig="missing name_field -> %s" % (got[3] if isinstance(got, list) else got,), nontrivial=False)
+    for initial in (False, True):
+        for nf in ("ID", "absent"):
+            got, t = line({fp: _gene(), "name_field": nf}, switch=initial)
+            sw = [e for e in t.events if e[0] == "setglobal" and e[2] == "always_return_list"]
+            ok = (not sw) or sw[-1][3] is initial
+            ctx.ob("R2", ok, "bed12 leaves the always_return_list switch as it found it (also when the name field is missing)", func=b,
+                   sig="switch %s before bed12(name_field=%s): %s" % (initial, nf, "restored" if ok else "left at %r" % (sw[-1][3],)), nontrivial=False)
     # ---- R3 span checks
-    raises = [n for n in ast.walk(b.node) if isinstance(n, ast.If) and any(isinstance(x, ast.Raise) and "ValueError" in norm(x) for x in n.body)]
-    tests = {}
-    for n in raises:
-        t = n.test
-        if isinstance(t, ast.Compare) and len(t.ops) == 1:
-            l = linform(t.left, resolve)
-            r_ = linform(t.comparators[0], resolve)
-            tests[(frozenset(l[0].items()), l[1], frozenset(r_[0].items()), r_[1])] = (type(t.ops[0]).__name__, n)
-    def has(a, c):
-        for (l, lc, r_, rc_), (op, n) in tests.items():
-            if op == "NotEq" and {(l, lc), (r_, rc_)} == {(frozenset(a.items()), 0), (frozenset(c.items()), 0)}:
-                return n
-        return None
-    n1 = has({"exons[0].start": 1}, {"%s.start" % fp: 1})
-    n2 = has({"exons[-1].end": 1}, {"%s.end" % fp: 1})
-    ctx.ob("R3", n1 is not None, "ValueError when the first block does not start at the feature's start", func=b,
-           sig="first-block span check present" if n1 is not None else "first-block span check missing or weakened")
-    ctx.ob("R3", n2 is not None, "ValueError when the last block does not end at the feature's end", func=b,
-           sig="last-block span check present" if n2 is not None else "last-block span check missing or weakened")
-    cfg = cfg_of(b)
-    if rets and n1 is not None and n2 is not None:
-        ok = all(cfg.dominates(cfg.node_for(n).id, cfg.node_for(rets[-1]).id) for n in (n1, n2))
-        ctx.ob("R3", ok, "both span checks precede the result", func=b, sig="span checks dominate the return" if ok else "result can be returned without the span checks", nontrivial=False)
+    got, t = line({fp: _gene()}, kids={("exon",): [("e1", 12, 20), ("e2", 50, 100)], ("CDS",): blocks[("CDS",)]})
+    ctx.ob("R3", got == ("raise", "ValueError"), "ValueError when the first block does not start at the feature's start", func=b,
+           sig="first block 12 vs feature start 10 -> %s" % ("ValueError" if got == ("raise", "ValueError") else got[:3] if isinstance(got, list) else got,))
+    got, t = line({fp: _gene()}, kids={("exon",): [("e1", 10, 20), ("e2", 50, 90)], ("CDS",): blocks[("CDS",)]})
+    ctx.ob("R3", got == ("raise", "ValueError"), "ValueError when the last block does not end at the feature's end", func=b,
+           sig="last block end 90 vs feature end 100 -> %s" % ("ValueError" if got == ("raise", "ValueError") else got[:3] if isinstance(got, list) else got,))
+    got, t = line({fp: _gene(), "thin_featuretype": ["UTR"]})
+    ctx.ob("R3", got == ("raise", "ValueError"), "thick and thin featuretypes exclude each other", func=b, sig="both given -> %s" % (got if not isinstance(got, list) else got[:3],), nontrivial=False)
     # ---- to_bed12
     tb = require_func(ctx, "convert.to_bed12")
-    tf = tb.params[0]
-    flds = single_assignment(tb.node, "fields")
-    ctx.require(isinstance(flds, ast.List) and len(flds.elts) == 12, "convert.to_bed12 no longer builds a 12-field list")
-    got = [linform(e, lambda nm: single_assignment(tb.node, nm) if nm != tf else None) for e in flds.elts[1:3]]
-    ctx.ob("R1", got == [({"%s.start" % tf: 1}, -1), ({"%s.end" % tf: 1}, 0)], "to_bed12: chromStart = start - 1, chromEnd = end", func=tb,
-           sig="to_bed12 fields[1:3] = %s" % [norm(e) for e in flds.elts[1:3]])
-    st = single_assignment(tb.node, "starts")
-    ok = isinstance(st, ast.ListComp) and linform(st.elt) == ({"%s.start" % st.generators[0].target.id: 1, "%s.start" % tf: -1}, 0)
-    ctx.ob("R1", ok, "to_bed12: block starts are block.start - feature.start", func=tb, sig="to_bed12 starts := %s" % (norm(st) if st is not None else None))
-    sz = single_assignment(tb.node, "sizes")
-    ok = isinstance(sz, ast.ListComp) and norm(sz.elt) == "len(%s)" % sz.generators[0].target.id
-    ctx.ob("R1", ok, "to_bed12: block sizes are block lengths", func=tb, sig="to_bed12 sizes := %s" % (norm(sz) if sz is not None else None), nontrivial=False)
-
-
-def _lin(f):
-    if f is None:
-        return None
-    a, c = f
-    s = " + ".join("%s%s" % ("" if v == 1 else "-" if v == -1 else "%d*" % v, k) for k, v in sorted(a.items()))
-    return s + (" %+d" % c if c else "")
-
-
-ID_ACCEPTING = {"children", "parents", "_relation"}
+    tf, tdb = tb.params[0], tb.params[1]
+    summ, G = _db(blocks)
+    DB = Opaque("db", "FeatureDB")
+    DB.attrs["dbfn"] = "x"
+    tr = _traces(ctx, tb, {tf: _gene(), tdb: DB}, summaries=summ)
+    r = tr[0].result
+    got = r[1].rstrip("\n").split("\t") if r[0] == "return" and isinstance(r[1], str) else r
+    ok = isinstance(got, list) and len(got) == 12 and got[1:3] == ["9", "100"] and got[9:12] == ["2", "11,51", "0,40"]
+    ctx.ob("R1", ok, "to_bed12: chromStart = start - 1, chromEnd = end, block sizes are block lengths, block starts are block.start - feature.start", func=tb,
+           sig="to_bed12 -> %s" % (got,))
 
 
 def r4(ctx):
-    """id-or-Feature discipline."""
-    targets = [("interface.FeatureDB.bed12", None), ("interface.FeatureDB.children_bp", None), ("interface.FeatureDB.add_relation", None),
-               ("convert.to_bed12", None)]
-    for qual, _ in targets:
+    """id-or-Feature discipline: every entry point that accepts an id is evaluated with an id string; it must look the
+    feature up before using it as one (no AttributeError), and with a Feature it must behave alike."""
+    from ..absint import Opaque
+    from .c16 import _feat
+    blocks = {("exon",): [("e1", 10, 20), ("e2", 50, 100)], ("CDS",): [("c1", 15, 20), ("c2", 50, 80)], "exon": [("e1", 10, 20), ("e2", 50, 100)]}
+    DB = Opaque("db", "FeatureDB")
+    DB.attrs["dbfn"] = "x"
+    cases = [("interface.FeatureDB.bed12", lambda f, v: {[p for p in f.params if p != "self"][0]: v}, True),
+             ("interface.FeatureDB.children_bp", lambda f, v: {[p for p in f.params if p != "self"][0]: v}, True),
+             ("convert.to_bed12", lambda f, v: {f.params[0]: v, f.params[1]: DB}, False)]
+    for qual, mk, is_method in cases:
         f = require_func(ctx, qual)
-        cfg = cfg_of(f)
-        for p in [x for x in f.params if x not in ("self", "db")]:
-            normalisers = []
-            for n in ast.walk(f.node):
-                if isinstance(n, ast.Assign) and is_name(n.targets[0], p) and isinstance(n.value, ast.Subscript) and \
-                        norm(n.value.value) in ("self", "db") and is_name(n.value.slice, p):
-                    anchor = n
-                    for q in parents(n):
-                        if isinstance(q, ast.If) and norm(q.test) in ("isinstance(%s, str)" % p, "not isinstance(%s, Feature)" % p):
-                            anchor = q
-                    normalisers.append(anchor)
-            if not normalisers:
-                continue
-            nn = [cfg.node_for(a).id for a in normalisers]
-            for u in [x for x in ast.walk(f.node) if isinstance(x, ast.Name) and x.id == p and isinstance(x.ctx, ast.Load)]:
-                un = cfg.node_for(u)
-                if un is None or not cfg.in_own_body(u):
-                    continue
-                if any(cfg.dominates(n_, un.id) and n_ != un.id for n_ in nn):
-                    continue
-                if any(un.id == n_ for n_ in nn):
-                    continue  # the normaliser itself / its isinstance test
-                par = getattr(u, "_parent", None)
-                ok = False
-                if isinstance(par, ast.Call) and u in par.args and (call_attr(par) in ID_ACCEPTING) and par.args.index(u) == 0:
-                    ok = True
-                if isinstance(par, ast.Call) and is_name(par.func, "isinstance"):
-                    ok = True
-                if isinstance(par, ast.Subscript) and norm(par.value) in ("self", "db") and par.slice is u:
-                    ok = True
-                ctx.ob("R4", ok,
-                       "`%s` may be an id or a Feature: until it has been looked up (%s = self[%s]) it may only be handed to id-accepting calls" % (p, p, p),
-                       node=u, func=f,
-                       sig="%s: `%s` used as a Feature before it is normalised (%s)" % (f.name, p, norm(getattr(cfg.node_for(u), "stmt", u))[:60]) if not ok
-                       else "%s: early use of `%s` is id-safe" % (f.name, p),
+        outs = {}
+        for label, v in (("an id", "gene1"), ("a Feature", _gene())):
+            lk = []
+            summ, G = _db(blocks, lk)
+            tr = _traces(ctx, f, mk(f, v), self_obj=Opaque("self", "obj") if is_method else None, summaries=summ)
+            outs[label] = sorted({(t.result[0], t.result[1] if isinstance(t.result[1], (str, int)) else repr(t.result[1])) for t in tr})
+            if label == "an id":
+                ok = all(o[0] == "return" for o in outs[label])
+                ctx.ob("R4", ok, "`%s` given an id looks the feature up before using it as a Feature" % f.name, func=f,
+                       sig="%s('gene1') -> %s" % (f.name, "a result" if ok else outs[label]),
                        detail=None if ok else "with an id string this object reaches attribute access (.start/.stop) -> AttributeError")
-            ctx.ob("R4", True, "%s normalises `%s`" % (f.name, p), func=f, sig="%s: %s normalised" % (f.name, p), nontrivial=False)
+        if qual.endswith("bed12") and is_method:
+            summ, G = _db({}, [])
+            tr = _traces(ctx, f, mk(f, "gene1"), self_obj=Opaque("self", "obj"), summaries=summ)
+            ok = all(t.result[0] == "return" for t in tr)
+            ctx.ob("R4", ok, "`bed12` given an id of a feature without block children still works on the looked-up feature", func=f,
+                   sig="bed12('gene1') without blocks -> %s" % ("a result" if ok else sorted({(t.result[0], t.result[1]) for t in tr if t.result[0] != "return"})),
+                   detail=None if ok else "the id string itself became the single block and reached attribute access -> AttributeError")
+        ctx.ob("R4", outs["an id"] == outs["a Feature"], "`%s` gives the same result for an id and for the Feature it names" % f.name, func=f,
+               sig="%s: id and Feature results %s" % (f.name, "agree" if outs["an id"] == outs["a Feature"] else "differ: %s vs %s" % (outs["an id"], outs["a Feature"])), nontrivial=False)
 
 
 def check(ctx):
     ctx.explanation = (
-        "Linear normal forms (sum of atoms with integer coefficients + constant, locals substituted by their single definition) of every "
-        "coordinate expression in __len__, sequence, bed12 and convert.to_bed12 are compared with the conventions of the statement; the "
-        "BED field list is compared position by position; the span checks are found by normal form and must dominate the return; the "
-        "reverse-complement test is decided by truth table; R4 is a dominance rule on id-or-Feature parameters. Does not decide string "
-        "contents of sequences (pyfaidx) or exact BED lines (runtime data).")
+        "__len__, the stop/chrom aliases, Feature.sequence, FeatureDB.bed12 and convert.to_bed12 are evaluated abstractly (no execution) on "
+        "features with concrete coordinates and a summarised database (db[id], children by type): the slice taken from the FASTA object, the "
+        "twelve BED fields, the thick region from thick or thin features, the span checks, and the id-or-Feature discipline (an id must be "
+        "looked up before it is used as a Feature) are compared with the conventions of the statement. Does not decide string contents of "
+        "sequences (pyfaidx).")
     r1_r2_r3(ctx)
     r4(ctx)
